@@ -475,7 +475,7 @@ func genCase(r *hx.RNG, i int, tier string) tcase {
 		same(0, 1)
 		c.Peers[0].Fam = '6'
 		c.Peers[0].Passive = true
-		c.Peers[0].AP = r.Bool()
+		c.Peers[0].AP = i%20 < 10 // (the first two of a run with add-path: path ids of a left-over table show on the wire)
 		if r.Chance(40) {
 			c.Peers[0].Kind, c.Peers[0].Role = 'e', true
 		}
